@@ -440,9 +440,7 @@ def transpile_structure(
                 "continue", indent
             )
         elif struct.parent_structure == vyxal.structure.FunctionDef:
-            return indent_str(
-                "stack.append(this(stack, this, ctx=ctx))", indent
-            )
+            return indent_str("stack += this(stack, this, ctx=ctx)", indent)
         elif struct.parent_structure == vyxal.structure.Lambda:
             return indent_str("stack += this(stack, this, ctx=ctx)", indent)
         elif struct.parent_structure in (
